@@ -477,14 +477,19 @@ func panicSite() string {
 	var sites []string
 	for _, l := range strings.Split(string(buf[:n]), "\n") {
 		l = strings.TrimSpace(l)
-		if strings.HasPrefix(l, "/repo/") {
-			if i := strings.Index(l, " +"); i > 0 {
-				l = l[:i]
-			}
-			sites = append(sites, strings.TrimPrefix(l, "/repo/"))
-			if len(sites) >= 3 {
+		// frames of the repository under test, wherever it is checked out
+		for _, pkg := range []string{"/evaluator/", "/props/", "/object/", "/parser/", "/di/", "/runscript/", "/third_party/simplexer/", "/native/", "/ast/"} {
+			if i := strings.Index(l, pkg); i >= 0 && strings.HasPrefix(l, "/") && !strings.Contains(l, "/harness/") {
+				l = l[i+1:]
+				if j := strings.Index(l, " +"); j > 0 {
+					l = l[:j]
+				}
+				sites = append(sites, l)
 				break
 			}
+		}
+		if len(sites) >= 3 {
+			break
 		}
 	}
 	return strings.Join(sites, " < ")
